@@ -1559,6 +1559,19 @@ func (sc *scenario) director(nPost, perPost int, postWait bool) {
 		case "enablepaste":
 			c.park("dir-step", nil, false)
 			s.EnablePaste()
+		case "enablemouse":
+			// EnableMouse(flags) on the live screen (bit 1 buttons, 2 drag, 4 motion; no argument = all)
+			c.park("dir-step", nil, false)
+			sc.tag("enablemouse")
+			if len(f) >= 2 {
+				s.EnableMouse(tcell.MouseFlags(atoi(f[1])))
+			} else {
+				s.EnableMouse()
+			}
+		case "disablemouse":
+			c.park("dir-step", nil, false)
+			sc.tag("disablemouse")
+			s.DisableMouse()
 		case "checktail":
 			c.park("wait-stall", never, true)
 			sc.tailCheck()
